@@ -18,17 +18,20 @@ L == INSTANCE ObjModel WITH Dev <- OpenDev
 
 PO == 1
 CO == 2
+GO == 6                 \* grandparent: PO.[[Prototype]] = GO
 G1 == ObjV(3)
 G2 == ObjV(4)
 S1 == ObjV(5)
 Names == <<S_p, S_q>>
 NameSet == {S_p, S_q}
 Objs == {PO, CO}
+Objs3 == {PO, CO, GO}
 
 FnObj(payload) == [S!NewObj("Function", 0) EXCEPT !.fn = payload]
-Heap0 == <<S!NewObj("Object", 0), [S!NewObj("Object", 0) EXCEPT !.proto = PO],
+Heap0 == <<[S!NewObj("Object", 0) EXCEPT !.proto = GO], [S!NewObj("Object", 0) EXCEPT !.proto = PO],
            FnObj([k |-> "getter", ret |-> IntV(101)]), FnObj([k |-> "getter", ret |-> IntV(102)]),
-           FnObj([k |-> "setter"])>>
+           FnObj([k |-> "setter"]), S!NewObj("Object", 0)>>
+AllObjs == <<PO, CO, GO>>
 
 Vals    == {Undef, IntV(1), IntV(2)}
 Getters == {Undef, G1, G2}
@@ -89,7 +92,7 @@ ObsObj(H, o) ==
               IN  [own |-> IF S!HasOwn(H, o, p) THEN S!OwnProp(H, o, p) ELSE [k |-> "none"],
                    isin |-> S!HasProperty(H, o, p),
                    get |-> GetVal(S!GetReq, H, o, p)]]]
-Obs(H) == [o \in 1..2 |-> ObsObj(H, o)]
+Obs(H) == [i \in 1..3 |-> ObsObj(H, AllObjs[i])]
 
 Res(H, thr, ret, log) == [H |-> H, thr |-> thr, ret |-> ret, log |-> log]
 
@@ -150,6 +153,28 @@ HistActions ==
     \cup {[op |-> x, o |-> o] : x \in {"seal", "freeze", "prevent"}, o \in Objs}
     \cup {[op |-> "defprops", o |-> o, d |-> d1, d2 |-> d2] : o \in Objs, d1 \in MultiDescs, d2 \in MultiDescs}
 
+(* mode "chain": an accessor or read-only property two links up the chain must still   *)
+(* govern assignment on the child                                                        *)
+ChainActions ==
+    {[op |-> "define", o |-> GO, n |-> n, d |-> d] : n \in NameSet, d \in HistDescs}
+    \cup {[op |-> "assign", o |-> o, n |-> n, v |-> v] : o \in {CO, PO}, n \in NameSet, v \in {IntV(1), IntV(2)}}
+    \cup {[op |-> "delete", o |-> o, n |-> n] : o \in {GO, CO}, n \in NameSet}
+    \cup {[op |-> x, o |-> o] : x \in {"freeze", "prevent"}, o \in {CO, GO}}
+
+(* mode "sv": 8.12.9 compares values with SameValue: +0, -0 and NaN are the cases where it  *)
+(* differs from === *)
+SVVals == {IntV(0), NumV(NZero), NumV(NaN), IntV(1)}
+SVActions ==
+    {[op |-> "define", o |-> CO, n |-> S_p, d |-> d] :
+        d \in {S!ValueDesc(v) : v \in SVVals} \cup {[S!ValueDesc(v) EXCEPT !.hw = TRUE, !.w = FALSE] : v \in SVVals}}
+    \cup {[op |-> "assign", o |-> CO, n |-> S_p, v |-> v] : v \in SVVals}
+InitSV ==
+    \E v \in SVVals, w \in BOOLEAN, c \in BOOLEAN :
+        LET ps == S!DataP(v, w, TRUE, c) IN
+        /\ init = [p |-> ps, ext |-> TRUE]
+        /\ heap = [Heap0 EXCEPT ![CO] = [@ EXCEPT !.props = (S_p :> ps), !.order = <<S_p>>]]
+        /\ hist = <<>>
+
 InitTable ==
     \E ps \in PropStates, ext \in BOOLEAN :
         /\ init = [p |-> ps, ext |-> ext]
@@ -158,7 +183,7 @@ InitTable ==
                        !.order = IF ps.k = "none" THEN <<>> ELSE <<S_p>>]]
         /\ hist = <<>>
 InitHist == heap = Heap0 /\ hist = <<>> /\ init = [p |-> [k |-> "none"], ext |-> TRUE]
-Init == IF Mode = "table" THEN InitTable ELSE InitHist
+Init == IF Mode = "table" THEN InitTable ELSE IF Mode = "sv" THEN InitSV ELSE InitHist
 
 Step(a) ==
     LET r  == Apply(FALSE, heap, a)
@@ -171,7 +196,8 @@ Step(a) ==
                                         dev |-> IF ed = es THEN <<>> ELSE <<ed>>]))
 
 Next == /\ Len(hist) < MaxLen
-        /\ \E a \in (IF Mode = "table" THEN TableActions ELSE HistActions) : Step(a)
+        /\ \E a \in (CASE Mode = "table" -> TableActions [] Mode = "sv" -> SVActions
+                          [] Mode = "chain" -> ChainActions [] OTHER -> HistActions) : Step(a)
 
 View == heap
 vars == <<heap, hist, init>>
@@ -181,12 +207,12 @@ vars == <<heap, hist, init>>
 OwnP(H, o, p) == IF S!HasOwn(H, o, p) THEN S!OwnProp(H, o, p) ELSE [k |-> "none"]
 
 NonWritableStable ==      \* a non-writable, non-configurable value never changes
-    [][\A o \in Objs, p \in NameSet :
+    [][\A o \in Objs3, p \in NameSet :
          LET a == OwnP(heap, o, p) IN
          (a.k = "data" /\ ~a.w /\ ~a.c) => OwnP(heap', o, p) = a]_vars
 
 NonConfigurableFixed ==   \* never deleted or re-shaped; writable may only go true -> false
-    [][\A o \in Objs, p \in NameSet :
+    [][\A o \in Objs3, p \in NameSet :
          LET a == OwnP(heap, o, p)  b == OwnP(heap', o, p) IN
          (a.k # "none" /\ ~a.c) =>
              /\ b.k = a.k /\ b.e = a.e /\ ~b.c
@@ -194,11 +220,11 @@ NonConfigurableFixed ==   \* never deleted or re-shaped; writable may only go tr
              /\ (a.k = "data" => (b.w => a.w))]_vars
 
 NonExtensibleNoGain ==    \* a non-extensible object never gains a property and stays non-extensible
-    [][\A o \in Objs : ~heap[o].ext =>
+    [][\A o \in Objs3 : ~heap[o].ext =>
          (~heap'[o].ext /\ DOMAIN heap'[o].props \subseteq DOMAIN heap[o].props)]_vars
 
 FrozenIsStable ==
-    [][\A o \in Objs : S!IsFrozen(heap, o) => heap'[o] = heap[o]]_vars
+    [][\A o \in Objs3 : S!IsFrozen(heap, o) => heap'[o] = heap[o]]_vars
 
 (* an accessor found on the prototype governs assignment: the child never    *)
 (* gets an own data property by assignment while the parent has an accessor  *)
@@ -209,12 +235,20 @@ InheritedAccessorGoverns ==
           /\ S!HasOwn(heap, PO, p) /\ S!OwnProp(heap, PO, p).k = "acc")
          => ~S!HasOwn(heap', CO, p)]_vars
 
+(* an accessor anywhere on the chain governs assignment on the child *)
+ChainAccessorGoverns ==
+    [][\A p \in NameSet :
+         (/\ Len(hist') > 0 /\ hist'[Len(hist')].op = "assign" /\ hist'[Len(hist')].o = CO
+          /\ hist'[Len(hist')].n = p
+          /\ S!GetProp(heap, CO, p).has /\ S!GetProp(heap, CO, p).d.k = "acc")
+         => heap'[CO] = heap[CO]]_vars
+
 EnumOK ==                 \* no duplicates, only existing enumerable names, order = creation order
-    \A o \in Objs :
+    \A o \in Objs3 :
         LET f == S!ForIn(heap, o) IN
         /\ \A i, j \in 1..Len(f) : i # j => f[i] # f[j]
         /\ \A i \in 1..Len(f) : S!HasProperty(heap, o, f[i])
         /\ S!OwnKeys(heap, o) = SelectSeq(heap[o].order, LAMBDA p : S!OwnProp(heap, o, p).e)
 
-TypeOK == \A o \in Objs : DOMAIN heap[o].props = {heap[o].order[i] : i \in 1..Len(heap[o].order)}
+TypeOK == \A o \in Objs3 : DOMAIN heap[o].props = {heap[o].order[i] : i \in 1..Len(heap[o].order)}
 =============================================================================
